@@ -3,6 +3,8 @@ module github.com/xelaj/mtproto/verifharness
 go 1.13
 
 require (
+	github.com/pkg/errors v0.9.1
+	github.com/xelaj/errs v0.0.0-20200831133608-d1c11863e019
 	github.com/xelaj/mtproto v0.0.0
 	verifcommon v0.0.0
 )
